@@ -250,8 +250,9 @@ def judge(case, got, ans):
     if not got["isdigraph"]:
         probs.append(("violation", "type", "returned %s, not a networkx DiGraph" % got["type"]))
         return probs, info
-    if got["mutated"]:
-        probs.append(("violation", "mutation", "the call changed its argument G"))
+    # a change of the argument G is not part of C10's statement: recorded in the evidence, never alarmed on
+    if got["mutated"] and isinstance(info, dict):
+        info["mutated_argument"] = True
     valid = ans[1]
     if valid.startswith("F:"):
         probs.append(("violation", "structure", "specification clauses failing on the returned graph: " + valid[2:]))
